@@ -266,6 +266,19 @@ func (m *Migrator) runStager(
 		logger.Info("Stager already completed in a previous run, skipping")
 		return nil, true, nil
 	}
+	if m.stagerProgress > oldestBlockKept {
+		// The resume token can be stale: a later run may have finished the whole migration
+		// (scratch wiped) and died before the runner recorded it. Without the staged copies the
+		// blocks below the token must be staged again, or setupBeforeRestorer wipes their
+		// only copy.
+		empty, err := scratchSpaceEmpty(database)
+		if err != nil {
+			return nil, false, fmt.Errorf("checking scratch space: %w", err)
+		}
+		if empty {
+			m.stagerProgress = oldestBlockKept
+		}
+	}
 	m.stagerProgress = max(oldestBlockKept, m.stagerProgress)
 
 	// Progress is reported relative to the keeper window [oldestBlockKept,
@@ -419,6 +432,15 @@ func (m *Migrator) retentionFloorWithMinAge(
 		return 0, err
 	}
 	return min(standardFloor, minAgeFloor), nil
+}
+
+func scratchSpaceEmpty(database db.KeyValueReader) (bool, error) {
+	it, err := database.NewIterator([]byte{migrationScratchTag}, true)
+	if err != nil {
+		return false, err
+	}
+	empty := !it.First()
+	return empty, it.Close()
 }
 
 func wipeScratchSpace(batch db.Batch) error {
